@@ -192,7 +192,7 @@ fn run_point_async(cfg: &RunCfg, i: usize, k: u64, out: &mut RunOut, trace: bool
     let ab = abuild(&cfg.specs[0], crate::rng::mix(cfg.order_seed, 0), cfg.permute, crate::rng::mix(cfg.seed, 0xC20A), 20)?;
     let shape = format!("{}/async", cfg.specs[0].shape());
     let mut world = World { m: vec![cfg.specs[0].view()], w: Default::default() };
-    let mut ax = AExec { root: ab.root.clone(), slots: Default::default() };
+    let mut ax = AExec { root: ab.root.clone(), slots: Default::default(), others: vec![] };
     let mut universe: std::collections::BTreeSet<String> = world.m[0].t.keys().cloned().collect();
     for op in &cfg.ops {
         for p in op.paths() {
